@@ -1,7 +1,7 @@
 #!/bin/bash
 # run every registered check of a tier on /repo, one after the other; print one summary line each
 tier=${1:-quick}
-cd /verif
+cd "$(dirname "$0")/.." || exit 2
 rc_all=0
 for p in C01 C02 C03 C04 C05 C06 C10 C11 C12 C13 C18 C19; do
   out=$(./simcheck.py --property $p --tier $tier 2>&1 | grep -v "WARNING: not removing")
